@@ -1230,7 +1230,7 @@ impl Part for Dags {
         "dags"
     }
     fn cases(&self, tier: Tier) -> u32 {
-        tier.pick(1200, 20_000)
+        tier.pick(2500, 40_000)
     }
     fn strategy(&self, tier: Tier) -> BoxedStrategy<Case> {
         case_strategy(tier)
